@@ -40,7 +40,7 @@ def valueSM (e : Enc) (k : UInt8) (lit : Bytes) : Except EncErr (Machine × List
 /-- Normal form of `writeValue`. -/
 theorem writeValue_nf (e : Enc) (v : Bytes) :
     writeValue e v =
-      match reformatValue e.o (2 * v.length + 2) (beforeToken e (valueKind v)) (skipWS v) e.m.depth with
+      match reformatValue e.o (3 * v.length + 4) (beforeToken e (valueKind v)) (skipWS v) e.m.depth with
       | .error err => (e, some err)
       | .ok (b', rest) =>
         match skipWS rest with
@@ -234,12 +234,12 @@ the value here, and a raw string in name position denotes a fresh name. -/
 theorem writeValue_iff {o : Opts} {b : Nat} {fs : Frames} {ns : List (List Bytes)} {e : Enc}
     (hI : EncInv o b fs ns e) (hb : b + 2 < 2^61) (v : Bytes) :
     (writeValue e v).2 = none ↔
-      ∃ b' rest, reformatValue o (2 * v.length + 2) (beforeToken e (valueKind v)) (skipWS v) e.m.depth = .ok (b', rest) ∧
+      ∃ b' rest, reformatValue o (3 * v.length + 4) (beforeToken e (valueKind v)) (skipWS v) e.m.depth = .ok (b', rest) ∧
         skipWS rest = [] ∧ (step o.maxDepth fs (firstKind (valueKind v))).isSome = true ∧
         (valueKind v = 0x22 → o.allowDup = false → isNamePos fs = true →
           unquote (b'.drop (beforeToken e (valueKind v)).length) ∉ ns.headD []) := by
   rw [writeValue_nf, hI.opts]
-  cases hr : reformatValue o (2 * v.length + 2) (beforeToken e (valueKind v)) (skipWS v) e.m.depth with
+  cases hr : reformatValue o (3 * v.length + 4) (beforeToken e (valueKind v)) (skipWS v) e.m.depth with
   | error err => simp
   | ok p =>
     obtain ⟨b', rest⟩ := p
